@@ -520,8 +520,12 @@ def run_rand_pipeline(ctx):
             if s is not None:
                 ctx.count('seeded-pipeline-library-session', tuple(cs['argv']), nontrivial=True)
                 if (s[0], s[1]) != (r['rc'], r['out']):
-                    ctx.violation('counterexample', 'property C17: the seeded command line differs from the library session random.seed(S); graph; generator; transformations left to right',
-                                  dict(property='C17', input=dict(argv=cs['argv'], session=cs['recipe']), tool=r['out'][:200], session_out=s[1][:200]), True, site=SITE, cls=cs['cls'])
+                    # C07 itself (same bytes for the same argv and seed) was just re-checked on this input and holds: this is a break of
+                    # the tie to coq/PipelineRand.v (one seeded library session), reported as such; the check of C17 judges the session reading
+                    ctx.violation('correspondence', 'the seeded command line no longer follows coq/PipelineRand.v: it differs from the library session random.seed(S); graph; '
+                                  'generator; transformations left to right (the output is still a function of argv and seed; see property C17)',
+                                  dict(related_property='C17', input=dict(argv=cs['argv'], session=cs['recipe']), tool=r['out'][:200], session_out=s[1][:200],
+                                       theorem='Prop_C07_pipeline.pipeline_draw_order'), False, site=SITE, cls=cs['cls'])
     finally:
         shutil.rmtree(tmp, ignore_errors=True)
     ctx.note('seeded pipeline stream total %.1fs' % (time.time() - t_start))
@@ -548,11 +552,13 @@ def diagnose(ctx, cs, r, m, tmp):
         if cs['recipe']:
             s = run_session(cs['recipe'])
             if (s[0], s[1]) != (r['rc'], r['out']):
-                replay['property'] = 'C17'
+                replay['related_property'] = 'C17'
                 replay['session'] = cs['recipe']
                 replay['session_out'] = s[1][:300]
-                ctx.violation('counterexample', 'property C17: the seeded command line differs from the library session random.seed(S); graph; generator; transformations left to right',
-                              replay, True, site=SITE, cls=cs['cls'])
+                replay['theorem'] = 'Prop_C07_pipeline.pipeline_draw_order'
+                ctx.violation('correspondence', 'the seeded command line no longer follows coq/PipelineRand.v: it differs from the library session random.seed(S); graph; '
+                              'generator; transformations left to right (the output is still a function of argv and seed; see property C17)',
+                              replay, False, site=SITE, cls=cs['cls'])
                 return
     if agrees(m, r):
         # random.seed was called more often than --seed occurs, but bytes, draws and the library session agree
